@@ -8,6 +8,58 @@ open MysticVerif MysticVerif.Term
 /-- `eta = 1e-20` of `NormalizedChangeOverGeneration` (l.224), as the bit pattern CPython parses it to -/
 def eta : Float := Float.ofBits 4307583784117748259
 
+/-- `_epsilon = sqrt(numpy.finfo(float).eps)` = 2^-26 (_scipy060optimize.py l.47) -/
+def epsilon : Float := Float.ofBits 4490088828488384512
+
+/-! #### `Lnorm` at binary64: numpy's power, its floating-point exceptions -/
+
+def isFin (x : Float) : Bool := !(x.isNaN || x.isInf)
+
+/-- `weights**p` elementwise: numpy takes the scalar-exponent fast paths (square, identity, sqrt, reciprocal),
+otherwise `pow` -/
+def powF (p x : Float) : Float :=
+  if p == 2.0 then x * x else if p == 1.0 then x else if p == 0.5 then Float.sqrt x
+  else if p == -1.0 then 1.0 / x else Float.pow x p
+
+/-- IEEE overflow / invalid of one `x**p` (division by zero is not raised) -/
+def powRaises (p x : Float) : Bool :=
+  let r := powF p x
+  (r.isInf && isFin x && x != 0.0) || (r.isNaN && !x.isNaN && !p.isNaN)
+
+/-- overflow of the sequential sum -/
+def sumRaises : List Float → Float → Bool
+  | [], _ => false
+  | t :: ts, acc => let a := acc + t
+                    (a.isInf && isFin acc && isFin t) || sumRaises ts a
+
+def rootF (p s : Float) : Float := Float.pow s (1.0 / p)
+
+/-- does `sum(abs(w**p), axis=0)**(1./p)` raise under `seterr(over='raise', invalid='raise')` -/
+def raisesF (p : Float) (w : List Float) : Bool :=
+  let ts := w.map (fun x => absR (powF p x))
+  let s := addReduce ts
+  let r := rootF p s
+  w.any (powRaises p) || (match ts with | [] => false | t :: rest => sumRaises rest t)
+    || (r.isInf && isFin s && s != 0.0) || (r.isNaN && !s.isNaN && !p.isNaN)
+
+def parseNorm : Val → Option (Norm Float)
+  | .sym "zero" => some (.zero Float.ofNat)
+  | .sym "inf" => some .inf
+  | .sym "neginf" => some .neginf
+  | .list [.sym "fin", p] => do
+      let pf ← p.asFloat?
+      pure (.fin (powF pf) (rootF pf) (raisesF pf))
+  | _ => none
+
+/-- the harness's cost family: `c0 + sum_i (a_i x_i + b_i x_i^2)`, accumulated left to right -/
+def costF (c0 : Float) (a b : List Float) (x : List Float) : Float :=
+  ((x.zip (a.zip b)).foldl (fun s t => (s + t.2.1 * t.1) + t.2.2 * (t.1 * t.1)) c0)
+
+def parseCost : Val → Option (Option (List Float → Float))
+  | .sym "none" => some none
+  | .list [c0, a, b] => do pure (some (costF (← c0.asFloat?) (← a.asFloats?) (← b.asFloats?)))
+  | _ => none
+
 def optInt? : Val → Option (Option Int)
   | .sym "none" => some none
   | .int i => some (some i)
@@ -31,6 +83,7 @@ def parsePrim : List Val → Option (Prim Float)
   | [.sym "vtrcog", ft, gt, g, tgt] => do pure (.vtrcog (← ft.asFloat?) (← gt.asFloat?) (← optInt? g) (← tgt.asFloat?))
   | [.sym "popspread", tol] => do pure (.popspread (← tol.asFloat?))
   | [.sym "gradnorm", tol] => do pure (.gradnorm (← tol.asFloat?))
+  | [.sym "gradnormP", tol, n] => do pure (.gradnormP (← tol.asFloat?) (← parseNorm n) epsilon)
   | [.sym "evallimits", g, e] => do pure (.evallimits (← optInt? g) (← optInt? e))
   | [.sym "timelimits", s, sys, s0, s1, s2] => do
       pure (.timelimits (← s.asFloat?) (← optBool? sys) (← s0.asFloat?) (← s1.asFloat?) (← s2.asFloat?))
@@ -60,17 +113,25 @@ def parseView (args : List Val) : Option (View Float) := do
   let fcalls ← (kw? args "fcalls").bind Val.asInt?
   let early ← (kw? args "early").bind Val.asBool?
   let clock ← (kw? args "clock").bind Val.asFloats?
+  -- optional extensions (absent in requests of other drivers)
+  let gradNone := ((kw? args "gradnone").bind Val.asBool?).getD false
+  let cost := ((kw? args "cost").bind parseCost).getD none
   match clock with
   | [t0, t1, t2] =>
     pure { hist, pop, popE, best, trial, trial2d, grad, gens, fcalls, earlyExit := early,
-           tTime := t0, tPerf := t1, tProc := t2 }
+           tTime := t0, tPerf := t1, tProc := t2, gradNone, cost }
   | _ => none
 
 def pOut : POut → String
   | .unsat => "unsat" | .sat => "sat" | .warn => "warn"
 
 def pErr : Err → String
-  | .index => "index" | .value => "value"
+  | .index => "index" | .value => "value" | .type => "type" | .attr => "attr"
+
+/-- the factory constant a rebuilt primitive gets: `eta` (NormalizedChangeOverGeneration), `_epsilon` -/
+def constOf : Prim Float → Float
+  | .gradnormP .. => epsilon
+  | _ => eta
 
 /-- canonical info set: doc ids ascending, then `warn` -/
 def pAtoms (l : List Atom) : String :=
@@ -114,7 +175,7 @@ def handle : Handler
       match same, p with
       | true, .timelimits _ _ s0 s1 s2 => (s0, s1, s2)   -- rebuilt at the same clock reading as the original
       | _, _ => (r0, r1, r2)
-    let rb := ps.map fun p => match Prim.make p.kind p.state eta (starts p).1 (starts p).2.1 (starts p).2.2 with
+    let rb := ps.map fun p => match Prim.make p.kind p.state (constOf p) (starts p).1 (starts p).2.1 (starts p).2.2 with
       | none => "none"
       | some q => match q.err v with
         | some er => "err-" ++ pErr er
@@ -124,6 +185,17 @@ def handle : Handler
     | some er => return s!"ok raised={pErr er} prims={pL pouts} rb={pL rb} built={built}"
     | none =>
       return s!"ok b={pB (c.evalB v)} info={pAtoms (c.info v)} self={pIdx (c.selfRes v)} not={pIdx (c.notRes v)} den={pB (e.den v)} prims={pL pouts} rb={pL rb} built={built}"
+  | .sym "approx" :: args => Id.run do
+    -- approx_fprime(best, cost, _epsilon): the evaluation points in order and the gradient
+    let some best := (kw? args "best").bind Val.asFloats? | return "bad-op"
+    let some (some f) := (kw? args "cost").bind parseCost | return "bad-op"
+    return s!"ok pts={pFss (approxPoints best epsilon)} grad={pFs (approxFprime f best epsilon)}"
+  | .sym "lnorm" :: args => Id.run do
+    let some w := (kw? args "w").bind Val.asFloats? | return "bad-op"
+    let some n := (kw? args "norm").bind parseNorm | return "bad-op"
+    match lnorm n w with
+    | .ok x => return s!"ok norm={pF x}"
+    | .error e => return s!"err {pErr e}"
   | _ => "bad-op"
 
 end MysticVerif.DrvC10
